@@ -222,19 +222,32 @@ func (g *Rand) slice(setName string, phases []corev1alpha1.ObjectSetTemplatePhas
 		if len(phases[i].Objects) <= keep {
 			continue
 		}
-		sliceName := fmt.Sprintf("%s-%s-slice", setName, phases[i].Name)
 		objs := phases[i].Objects[keep:]
-		var obj client.Object
-		if g.P.Cluster {
-			obj = &corev1alpha1.ClusterObjectSlice{ObjectMeta: metav1.ObjectMeta{Name: sliceName}, Objects: objs}
-		} else {
-			obj = &corev1alpha1.ObjectSlice{ObjectMeta: metav1.ObjectMeta{Name: sliceName, Namespace: g.SetNS}, Objects: objs}
+		// one to three slices per phase, each holding a contiguous run of the objects
+		nSl := 1 + g.sliceR.Intn(3)
+		if nSl > len(objs) {
+			nSl = len(objs)
 		}
-		if err := g.E.Create("user", false, obj); err != nil {
-			panic(err)
+		var names []string
+		for k := 0; k < nSl; k++ {
+			lo, hi := k*len(objs)/nSl, (k+1)*len(objs)/nSl
+			sliceName := fmt.Sprintf("%s-%s-slice", setName, phases[i].Name)
+			if k > 0 {
+				sliceName = fmt.Sprintf("%s-%d", sliceName, k)
+			}
+			var obj client.Object
+			if g.P.Cluster {
+				obj = &corev1alpha1.ClusterObjectSlice{ObjectMeta: metav1.ObjectMeta{Name: sliceName}, Objects: objs[lo:hi]}
+			} else {
+				obj = &corev1alpha1.ObjectSlice{ObjectMeta: metav1.ObjectMeta{Name: sliceName, Namespace: g.SetNS}, Objects: objs[lo:hi]}
+			}
+			if err := g.E.Create("user", false, obj); err != nil {
+				panic(err)
+			}
+			names = append(names, sliceName)
 		}
 		phases[i].Objects = phases[i].Objects[:keep]
-		phases[i].Slices = []string{sliceName}
+		phases[i].Slices = names
 	}
 }
 
